@@ -142,9 +142,8 @@ Proof.
         rewrite (proj2 (same_mset_perm ph in_gt) Hperm). rewrite (proj2 (memZ_false undet in_gt) Hnu). rewrite Hhet.
         destruct in_gt; [contradiction | reflexivity].
       * apply Hun; [exact Hgt | left; reflexivity].
-    + apply Hun; [apply same_mset_sort_l | right; reflexivity].
-  - unfold gt_clause, o_phased, o_out, o_in, o_ps, o_inps. cbn [fst snd]. rewrite same_mset_sort_l. cbn [andb].
-    rewrite optZ_eqb_refl. apply orb_true_r.
+    + apply Hun; [apply same_mset_sort_l | left; reflexivity].
+  - unfold gt_clause, o_phased, o_out, o_in, o_ps, o_inps. cbn [fst snd]. rewrite same_mset_sort_l. reflexivity.
 Qed.
 
 Lemma phased_pair_of : forall m phases r a s,
